@@ -323,11 +323,14 @@ def oracle_c04(case, out):
         return "abort: " + ab
     segs, _ = segments(case.lines, out)
     conns = per_connection(segs)
-    has_head = any("48454144" in l for l in case.lines)        # a HEAD request somewhere in the script
     for c, ct in conns.items():
         data = b"".join(ct.wires)
         if not data:
             continue
+        # a HEAD request on this connection (its bytes may be spread over several reads): its response has no body
+        rx = b"".join(bytes.fromhex(l.split()[2]) for l in case.lines
+                      if l.startswith("read c%d " % c) and len(l.split()) > 2 and l.split()[2] != "-")
+        has_head = b"HEAD" in rx or any(" head=1" in l for (_, l) in ct.requests)
         res, err = parse_responses(data, allow_headless_body=has_head, truncated_ok=True)
         if err:
             return "c%d wrote bytes that are not well-formed HTTP/1.1: %s\n  stream: %r" % (c, err, data[:300])
